@@ -248,7 +248,31 @@ func TestC08Corpus(t *testing.T) {
 }
 
 func genC08Input(t *rapid.T) (src string, origin string) {
-	switch rapid.SampledFrom([]string{"valid", "prefix", "prefix", "tokmut", "tokmut", "tokmut", "soup", "soup", "bytes", "regex", "regex", "regexprefix", "layout", "unicode", "unicode"}).Draw(t, "origin") {
+	switch rapid.SampledFrom([]string{"valid", "prefix", "prefix", "tokmut", "tokmut", "tokmut", "soup", "soup", "bytes", "regex", "regex", "regexprefix", "layout", "unicode", "unicode", "deepnest"}).Draw(t, "origin") {
+	case "deepnest":
+		// nesting 8..48 levels deep: cost must stay linear in the depth
+		d := rapid.IntRange(8, 48).Draw(t, "nestdepth")
+		cut := rapid.IntRange(0, 3).Draw(t, "nestcut") // 0: balanced, else: that many closers missing
+		closers := d - cut
+		if cut == 0 {
+			closers = d
+		}
+		switch rapid.IntRange(0, 6).Draw(t, "nestkind") {
+		case 0:
+			return "find all " + strings.Repeat("( ", d) + "'a'" + strings.Repeat(" )", closers), "deepnest"
+		case 1:
+			return "find all " + strings.Repeat("maybe ( ", d) + "'a'" + strings.Repeat(" )", closers), "deepnest"
+		case 2:
+			return "find all " + strings.Repeat("( 'a' or ", d) + "'b'" + strings.Repeat(" )", closers), "deepnest"
+		case 3:
+			return "set f to transform return " + strings.Repeat("( ", d) + "1" + strings.Repeat(" )", closers) + " end replace all 'a' with f", "deepnest"
+		case 4:
+			return "set f to transform " + strings.Repeat("if true then ", d) + "return 'x' " + strings.Repeat("end ", closers) + "return 'y' end replace all 'a' with f", "deepnest"
+		case 5:
+			return "find all @/" + strings.Repeat("(?:", d) + "a" + strings.Repeat(")", closers) + "/", "deepnest"
+		default:
+			return "find all " + strings.Repeat("{ ", d/4+1) + "'a'" + strings.Repeat(" } = s", min(closers, d/4+1)), "deepnest"
+		}
 	case "unicode":
 		// a valid program or a soup with one or two characters replaced by (or followed
 		// by) non-ASCII digits, letters, blanks and case-folding oddities
